@@ -45,6 +45,7 @@ impl<H: Hasher> BatchMerkleProof<H> {
     /// * More than 255 paths have been provided.
     /// * Number of paths is not equal to the number of indexes.
     /// * Not all paths have the same length.
+    /// * List of indexes contains duplicates.
     pub fn from_paths(paths: &[Vec<H::Digest>], indexes: &[usize]) -> BatchMerkleProof<H> {
         // TODO: optimize this to reduce amount of vector cloning.
         assert!(!paths.is_empty(), "at least one path must be provided");
@@ -53,14 +54,19 @@ impl<H: Hasher> BatchMerkleProof<H> {
 
         let depth = paths[0].len();
 
-        // sort indexes in ascending order, and also re-arrange paths accordingly
+        // sort indexes in ascending order, and also re-arrange paths accordingly; leaves are kept
+        // in the order of the provided indexes (as in proofs built by MerkleTree::prove_batch())
         let mut path_map = BTreeMap::new();
-        for (&index, path) in indexes.iter().zip(paths.iter().cloned()) {
+        let mut position_map = BTreeMap::new();
+        for (i, (&index, path)) in indexes.iter().zip(paths.iter().cloned()).enumerate() {
             assert_eq!(depth, path.len(), "not all paths have the same length");
             path_map.insert(index, path);
+            position_map.insert(index, i);
         }
+        assert_eq!(paths.len(), path_map.len(), "list of indexes contains duplicates");
         let indexes = path_map.keys().cloned().collect::<Vec<_>>();
         let paths = path_map.values().cloned().collect::<Vec<_>>();
+        let positions = position_map.values().cloned().collect::<Vec<_>>();
         path_map.clear();
 
         let mut leaves = vec![H::Digest::default(); indexes.len()];
@@ -69,9 +75,9 @@ impl<H: Hasher> BatchMerkleProof<H> {
         // populate values and the first layer of proof nodes
         let mut i = 0;
         while i < indexes.len() {
-            leaves[i] = paths[i][0];
+            leaves[positions[i]] = paths[i][0];
             if indexes.len() > i + 1 && are_siblings(indexes[i], indexes[i + 1]) {
-                leaves[i + 1] = paths[i][1];
+                leaves[positions[i + 1]] = paths[i][1];
                 nodes.push(vec![]);
                 i += 1;
             } else {
